@@ -31,11 +31,29 @@ fn nesting(family: &str, d: usize) -> String {
         "string_concat" => format!("RETURN 'a'{}", " + 'a'".repeat(d)),
         "property_chain" => format!("WITH {{a: 1}} AS m RETURN m{}", ".a".repeat(d)),
         "index_chain" => format!("RETURN [[1]]{}", "[0]".repeat(d)),
+        "cmp_chain" => format!("RETURN 1{}", " < 2".repeat(d)),
+        "eq_chain" => format!("RETURN 1{}", " = 1".repeat(d)),
+        "or_xor_chain" => format!("RETURN true{}", " OR false XOR true".repeat(d)),
+        "label_chain" => format!("MATCH (n{}) RETURN n", ":A".repeat(d)),
+        "label_predicate_chain" => format!("MATCH (n) WHERE n{} RETURN n", ":A".repeat(d)),
+        "shortest_path_nest" => format!("MATCH p = {}(a)-[*]->(b){} RETURN p", "shortestPath(".repeat(d), ")".repeat(d)),
+        "prop_map_keys" => format!("MATCH (n {{{}}}) RETURN n", (0..d).map(|i| format!("k{i}: 1")).collect::<Vec<_>>().join(", ")),
+        "match_pattern_list" => format!("MATCH {} RETURN count(*) AS c", (0..d).map(|i| format!("(a{i}:Nope)")).collect::<Vec<_>>().join(", ")),
+        "create_pattern_list" => format!("CREATE {}", (0..d).map(|_| "(:Tmp)".to_string()).collect::<Vec<_>>().join(", ")),
+        "reduce_nested_values" => format!("RETURN size(reduce(acc = [], x IN range(1, {d}) | [acc])) AS c"),
+        "foreach_nest" => format!("{}CREATE (:Tmp){}", "FOREACH (i IN [1] | ".repeat(d), ")".repeat(d)),
+        "return_items" => format!("RETURN {}", (0..d).map(|i| format!("1 AS c{i}")).collect::<Vec<_>>().join(", ")),
+        "with_items" => format!("WITH {} RETURN c0", (0..d).map(|i| format!("1 AS c{i}")).collect::<Vec<_>>().join(", ")),
+        "list_literal" => format!("RETURN size([{}]) AS c", vec!["1"; d].join(", ")),
+        "in_list_literal" => format!("RETURN 1 IN [{}] AS c", vec!["2"; d].join(", ")),
+        "unwind_chain" => format!("{}RETURN 1 AS c", "UNWIND [1] AS x ".repeat(d)),
+        "match_chain" => format!("{}RETURN 1 AS c", "MATCH (n) ".repeat(d)),
+        "string_literal_escapes" => format!("RETURN '{}' AS c", "\\n".repeat(d)),
         _ => String::new(),
     }
 }
 
-const NEST_FAMILIES: [&str; 18] = ["parens", "lists", "maps", "not", "minus", "plus_chain", "and_chain", "case", "calls", "comprehension", "exists", "call_subquery", "pattern_chain", "union_chain", "with_chain", "string_concat", "property_chain", "index_chain"];
+const NEST_FAMILIES: [&str; 36] = ["cmp_chain", "eq_chain", "or_xor_chain", "label_chain", "label_predicate_chain", "shortest_path_nest", "prop_map_keys", "match_pattern_list", "create_pattern_list", "reduce_nested_values", "foreach_nest", "return_items", "with_items", "list_literal", "in_list_literal", "unwind_chain", "match_chain", "string_literal_escapes", "parens", "lists", "maps", "not", "minus", "plus_chain", "and_chain", "case", "calls", "comprehension", "exists", "call_subquery", "pattern_chain", "union_chain", "with_chain", "string_concat", "property_chain", "index_chain"];
 
 fn depths(thorough: bool) -> Vec<usize> {
     if let Ok(d) = std::env::var("VERIF_C16_DEPTH") {
@@ -65,13 +83,13 @@ fn literal_inputs() -> Vec<String> {
     v.push(format!("RETURN 0.{} AS x", "9".repeat(400)));
     v.push(format!("RETURN '{}' AS x", "a".repeat(100_000)));
     v.push(format!("RETURN {} AS x", "x".repeat(100_000)));
-    for f in ["range(1, 9223372036854775807)", "range(-9223372036854775808, 9223372036854775807, 9223372036854775807)", "range(1, 10, 0)", "range(0, 100000000)", "substring('abc', 9223372036854775807)", "substring('abc', -1)", "substring('abc', 1, -1)", "left('abc', -1)", "right('abc', 9223372036854775807)", "[1,2,3][9223372036854775807]", "[1,2,3][-9223372036854775808]", "[1,2,3][1..9223372036854775807]", "split('a', '')", "replace('aaa', '', 'b')", "toString(-9223372036854775808)", "abs(-9223372036854775808)", "-(-9223372036854775808)", "9223372036854775807 * 9223372036854775807", "1 / 0", "1 % 0", "1.0 / 0", "0.0 / 0.0", "sqrt(-1)", "log(0)", "2 ^ 100000", "round(1e300)", "toInteger(1e300)", "toInteger('1e300')", "size(range(1, 300000))", "reduce(a = 0, x IN range(1, 300000) | a + x)", "date('0000-00-00')", "date('9999-99-99')", "datetime('2020-01-01T25:61:61')", "duration('P999999999999Y')", "date('2020-02-30')", "localtime('25:00')", "duration({days: 9223372036854775807})", "date({year: 999999999, month: 13})"] {
+    for f in ["range(1, 9223372036854775807)", "range(-9223372036854775808, 9223372036854775807, 9223372036854775807)", "range(1, 10, 0)", "range(0, 100000000)", "substring('abc', 9223372036854775807)", "substring('abc', -1)", "substring('abc', 1, -1)", "left('abc', -1)", "right('abc', 9223372036854775807)", "[1,2,3][9223372036854775807]", "[1,2,3][-9223372036854775808]", "[1,2,3][1..9223372036854775807]", "split('a', '')", "replace('aaa', '', 'b')", "toString(-9223372036854775808)", "abs(-9223372036854775808)", "-(-9223372036854775808)", "9223372036854775807 * 9223372036854775807", "1 / 0", "1 % 0", "1.0 / 0", "0.0 / 0.0", "sqrt(-1)", "log(0)", "2 ^ 100000", "round(1e300)", "toInteger(1e300)", "toInteger('1e300')", "size(range(1, 300000))", "reduce(a = 0, x IN range(1, 300000) | a + x)", "date('0000-00-00')", "date('9999-99-99')", "datetime('2020-01-01T25:61:61')", "duration('P999999999999Y')", "date('2020-02-30')", "localtime('25:00')", "duration({days: 9223372036854775807})", "date({year: 999999999, month: 13})", "date('2020-01-01') + duration({months: 9223372036854775807})", "date('2020-01-01') - duration({days: 9223372036854775807})", "datetime('2020-01-01T00:00:00Z') + duration({seconds: 9223372036854775807})", "duration({months: 9223372036854775807}) + duration({months: 1})", "duration({days: 9223372036854775807}) * 2", "localtime('10:00') + duration({hours: 9223372036854775807})", "date.truncate('week', date({year: -999999999}))", "duration.between(date({year: -999999999}), date({year: 999999999}))"] {
         v.push(format!("RETURN {f} AS x"));
     }
     v
 }
 
-const HEAVY: [(&str, &str); 18] = [
+const HEAVY: [(&str, &str); 20] = [
     ("cartesian_match", "MATCH (a), (b), (c), (d), (e), (f), (g), (h) RETURN count(*) AS c"),
     ("cartesian_unwind", "UNWIND range(1, 100000) AS a UNWIND range(1, 100000) AS b RETURN count(*) AS c"),
     ("varlen_bounded", "MATCH (a)-[*1..30]-(b) RETURN count(*) AS c"),
@@ -83,6 +101,8 @@ const HEAVY: [(&str, &str); 18] = [
     ("filtered_cartesian", "MATCH (a), (b), (c), (d) WHERE a.uid < b.uid AND b.uid < c.uid AND c.uid < d.uid RETURN count(*) AS c"),
     ("exists_subquery_per_row", "UNWIND range(1, 100000) AS a MATCH (n) WHERE EXISTS { MATCH (n)-[*1..6]-(m) } RETURN count(*) AS c"),
     ("call_subquery_per_row", "UNWIND range(1, 100000) AS a CALL { MATCH (n)-[*1..6]-(m) RETURN count(*) AS k } RETURN sum(k) AS c"),
+    ("call_subquery_many_short_evaluations", "UNWIND range(1, 6000) AS a UNWIND range(1, 6000) AS x CALL { WITH x RETURN x + 1 AS y } RETURN count(y) AS c"),
+    ("exists_many_short_evaluations", "UNWIND range(1, 6000) AS a UNWIND range(1, 6000) AS x WITH x WHERE EXISTS { MATCH (n) WHERE n.uid = x } RETURN count(*) AS c"),
     // one expression evaluation that does not return for a long time
     ("expr:nested_comprehension", "RETURN size([x IN range(1, 100000) | [y IN range(1, 100000) | x + y]]) AS c"),
     ("expr:nested_quantifier", "RETURN all(x IN range(1, 100000) WHERE all(y IN range(1, 100000) WHERE x + y > 0)) AS c"),
@@ -92,6 +112,10 @@ const HEAVY: [(&str, &str); 18] = [
     ("expr:reduce_in_comprehension_per_row", "UNWIND range(1, 1000) AS r RETURN [x IN range(1, 100000) | reduce(a = 0, y IN range(1, 1000) | a + y)][0] AS c"),
     ("expr:comprehension_in_where", "MATCH (n) WHERE size([x IN range(1, 100000) | [y IN range(1, 100000) | y]]) > 0 RETURN count(n) AS c"),
 ];
+
+/// CPU seconds a query with soft_timeout_ms = 50 may use (the scripted margin covers plan compilation,
+/// the graph scan of the first rows and the distance between two timeout checks)
+const HEAVY_CPU_LIMIT_S: f64 = 2.5;
 
 fn heavy_inputs() -> Vec<String> {
     HEAVY.iter().map(|(_, q)| q.to_string()).collect()
@@ -260,9 +284,12 @@ pub fn c16_child(family: &str, start: u64, end: u64) -> i32 {
             body()
         };
         let spent = cpu_time() - t0;
+        if family == "heavy" {
+            println!("INFO heavy {i} cpu={spent:.3}");
+        }
         if let Err(p) = r {
             println!("BAD {i} {p}");
-        } else if family == "heavy" && spent > 5.0 {
+        } else if family == "heavy" && spent > HEAVY_CPU_LIMIT_S {
             println!("BAD {i} TIMEOUT_IGNORED: {spent:.1}s of CPU with soft_timeout_ms = 50");
         }
     }
@@ -280,7 +307,7 @@ pub fn c16(tier: Tier) -> i32 {
     let rep = Report::new("C16", tier);
     let thorough = tier == Tier::Thorough;
     unsafe { std::env::set_var("VERIF_TIER", tier.name()) };
-    rep.rule("input families, ALL enumerated, each batch prepared and executed in a child process with a 2 GiB address-space limit, the default 8 MiB stack and CPU / wall caps: (a) every sequence of up to 3 (thorough 4) tokens over a 30-token alphabet; (b) every byte string of length <= 2 (thorough: a 1/16 slice of length 3) and every string up to length 4 over 13 special characters (quotes, escapes, NUL, U+FFFD, U+202E); (c) 18 nesting families x depth in {1, 10, 100, 1000, 10^4 (, 10^5)}, on the main thread (8 MiB stack) and on a default Rust thread (2 MiB stack); (d) numeric / temporal / range boundary literals and function arguments; (e) the first 2000 queries of the C11 grammar and the C12 update statements on a plain, a compacted and an edge-free compacted graph; (f) 18 'heavy single operator / single expression' queries with soft_timeout_ms = 50: CPU time must stay below 5 s; oracle: the child reports rows or an error for every input - never a panic, an abort, a signal, or an ignored timeout; non-trivial = inputs processed");
+    rep.rule("input families, ALL enumerated, each batch prepared and executed in a child process with a 2 GiB address-space limit, the default 8 MiB stack and CPU / wall caps: (a) every sequence of up to 3 (thorough 4) tokens over a 30-token alphabet; (b) every byte string of length <= 2 (thorough: a 1/16 slice of length 3) and every string up to length 4 over 13 special characters (quotes, escapes, NUL, U+FFFD, U+202E); (c) 36 nesting / length families x depth in {1, 10, 100, 1000, 10^4 (, 10^5)}, on the main thread (8 MiB stack) and on a default Rust thread (2 MiB stack); (d) numeric / temporal / range boundary literals and function arguments; (e) the first 2000 queries of the C11 grammar and the C12 update statements on a plain, a compacted and an edge-free compacted graph; (f) 20 'heavy single operator / single expression' queries with soft_timeout_ms = 50: CPU time (measured, so independent of machine load) must stay below 2.5 s; oracle: the child reports rows or an error for every input - never a panic, an abort, a signal, or an ignored timeout; non-trivial = inputs processed");
     let families: Vec<(&str, u64)> = vec![("tokens", 4000), ("bytes", 8000), ("special", 4000), ("nesting", 1), ("nesting_thread", 1), ("literals", 20), ("heavy", 1), ("corpus", 500), ("corpus_compacted", 500), ("corpus_edge_free", 500)];
     let mut fam_report = Vec::new();
     for (f, chunk) in families {
